@@ -67,7 +67,25 @@ def grad_cases():
                   ("PAPRConstraint(tight)", lambda: K.PAPRConstraint(max_papr=1.05), cplx, (3, 10)),
                   ("PerAntennaPowerConstraint", lambda: K.PerAntennaPowerConstraint(uniform_power=1.5), cplx, (2, 3, 8))]
     cases.append(("PhaseNoiseChannel", lambda: C.PhaseNoiseChannel(phase_noise_std=0.2), True, (2, 10)))
+    # the call-time keywords a DeepJSCC pipeline hands to every stage (model(image, snr=10.0), csi=...): whatever a channel makes of them,
+    # the result stays differentiable with the right gradient
+    for cplx in (False, True):
+        cases += [("AWGNChannel(snr; call snr=3.0)", lambda: _WithCallKw(C.AWGNChannel(snr_db=7.0), snr=3.0), cplx, (3, 12)),
+                  ("AWGNChannel(power; call snr=tensor)", lambda: _WithCallKw(C.AWGNChannel(avg_noise_power=0.3), snr=torch.tensor([3.0])), cplx, (2, 10)),
+                  ("LaplacianChannel(snr; call snr=12)", lambda: _WithCallKw(C.LaplacianChannel(snr_db=5.0), snr=12), cplx, (2, 10)),
+                  ("FlatFadingChannel(rayleigh,snr; call snr=6.0)", lambda: _WithCallKw(C.RayleighFadingChannel(coherence_time=3, snr_db=10.0), snr=6.0), cplx, (2, 9))]
     return cases
+
+
+class _WithCallKw(torch.nn.Module):
+    """A stage called the way a pipeline calls it: with the run's extra keyword arguments."""
+
+    def __init__(self, mod, **kw):
+        super().__init__()
+        self.mod, self.kw = mod, kw
+
+    def forward(self, x):
+        return self.mod(x, **self.kw)
 
 
 def grad_event(name, mk, cplx, shape, seed):
